@@ -883,6 +883,14 @@ class Engine:
             ap = self.path_of_expr(s.value, st)
             if ap is not None and ap.steps:
                 st.alias[s.targets[0].id] = ap
+        # d[k] = x / o.f = x  with x a local holding a mutable container: afterwards x and the slot are the same object, so x becomes a
+        # view into the slot (an in-place update through x is then an update of d[k], as in Python)
+        if len(s.targets) == 1 and isinstance(s.targets[0], (ast.Subscript, ast.Attribute)) and isinstance(s.value, ast.Name) \
+                and is_mutable_val(v) and isinstance(v, ZV) and s.value.id in st.env and s.value.id not in st.alias \
+                and s.value.id not in self.cur.con.locals and not s.value.id.startswith('$'):
+            ap = self.path_of_expr(s.targets[0], st)
+            if ap is not None and ap.steps and ap.root != s.value.id:
+                st.alias[s.value.id] = ap
         return [('next', st, None)]
 
     def path_of_expr(self, e, st):
@@ -1618,8 +1626,23 @@ class Engine:
         return self.binop(e.op, self.eval(e.left, st), self.eval(e.right, st), st, e)
 
     def ev_JoinedStr(self, e, st):
-        # f-strings only occur in stderr messages; value is an opaque string
-        return fresh(TStr, 'fstr')
+        # f"lit{x}lit": the concatenation of the literal parts and str(x) for every plain {x} (format(x, '') == str(x) for the str / int /
+        # float values the subset has).  A conversion (!r) or a format specification is outside the subset.
+        from .builtins import _str as b_str
+        out = None
+        for part in e.values:
+            if isinstance(part, ast.Constant) and isinstance(part.value, str):
+                pv = zstr(part.value)
+            elif isinstance(part, ast.FormattedValue) and part.conversion == -1 and part.format_spec is None:
+                v = self.eval(part.value, st)
+                if not (isinstance(v, ZV) and v.shape in (TStr, TInt, TF)):
+                    raise Unsupported('%s: f-string field %s of a type other than str / int / float (line %d)'
+                                      % (self.cur.qualname, ast.unparse(part.value), e.lineno))
+                pv = b_str(self, e, st, [v], {})
+            else:
+                raise Unsupported('%s: f-string with a conversion or a format specification (line %d)' % (self.cur.qualname, e.lineno))
+            out = pv if out is None else self.binop(ast.Add(), out, pv, st, e)
+        return out if out is not None else zstr('')
 
     def ev_Call(self, e, st, stmt=False):
         from . import calls
@@ -1653,6 +1676,9 @@ class Engine:
                 return z3.And(z3.Not(sh.is_none(v.term)), inner)
             if sh == TF:
                 return T.fval(v.term) != 0
+            if isinstance(sh, TBag):
+                # a container is true exactly when it is not empty (`not self.p_queue` for `len(self.p_queue) == 0`)
+                return T.bag_size(sh)(v.term) != 0
         if isinstance(v, (PList, PTuple)):
             return z3.BoolVal(len(v.items) != 0)
         if isinstance(v, (PObj, PRec, PFun)):
